@@ -459,6 +459,7 @@ type qcallee struct {
 
 // dropArg: an argument of a dropped type must be free of effects
 func (x *qtrans) dropArg(a ast.Expr, en qenv) {
+	covSkip("TransSl."+x.t.Lean, a, "dropped argument")
 	switch a := a.(type) {
 	case *ast.BasicLit, *ast.Ident:
 		return
